@@ -45,6 +45,12 @@ DEC_IND = ["natural", "random", "random", "reject_all", "accept_all", "reject_on
 def make_plan(seed: int, tier: str) -> dict:
     rng = SimRng(seed)
     st = rng.stream("plan")
+    if st.bernoulli(0.08):
+        # user-defined variable graph (public API: NamedVariables / VariablesDAG / State / sampler_factory) whose derived weighted
+        # tensor has weights that depend on the sampled latent variable - no shipped model has that
+        return {"seed": seed, "tier": tier, "engine": "stepsim_c02", "type": "custom_graph", "n": st.choice([3, 5, 8]), "visits": st.randint(2, 5),
+                "steps": st.randint(4, 12 if tier == "quick" else 30), "scale": st.choice([1.0, 5.0, 20.0]), "fork": st.choice(["REF", "COPY"]),
+                "gseed": st.u64() & 0x7FFFFFFF, "read_between": st.bernoulli(0.5)}
     cfg = stepsim.gen_world_cfg(rng.stream("world"), allow_mixture=True)
     n_steps = st.randint(3, 14 if tier == "quick" else 30)
     steps = []
@@ -67,10 +73,102 @@ def make_plan(seed: int, tier: str) -> dict:
     return {"seed": seed, "tier": tier, "engine": "stepsim_c02", "world": cfg, "steps": steps}
 
 
+def _followup(*, t, tau):
+    from leaspy.utils.weighted_tensor import WeightedTensor
+
+    return WeightedTensor(t - tau, t >= tau)     # observation window: value and *weight* depend on the latent reference time
+
+
+def _nll_attach_ind(*, followup, y):
+    return (0.5 * (followup - y) ** 2).sum(dim=1)
+
+
+def _n_informative_ind(*, followup):
+    return followup.weight.to(torch.float32).sum(dim=1)
+
+
+def _n_informative(*, n_informative_ind):
+    return n_informative_ind.sum()
+
+
+def run_custom_graph(plan: dict, out: dict, log: EventLog) -> None:
+    """Real individual Gibbs sampler on a user-defined graph; after every step every variable equals its from-scratch value."""
+    from leaspy.samplers import sampler_factory
+    from leaspy.variables.dag import VariablesDAG
+    from leaspy.variables.distributions import Normal
+    from leaspy.variables.specs import DataVariable, Hyperparameter, IndividualLatentVariable, LinkedVariable, NamedVariables
+    from leaspy.variables.state import State, StateForkType
+
+    from ..ref.refeval import RefEval
+
+    C = out["counters"]
+    C["type.custom_graph"] += 1
+    n, v = plan["n"], plan["visits"]
+    st = Stream(plan["gseed"], "data")
+    t = torch.tensor([[round(66.0 + 2.0 * j + st.uniform(0, 1.5), 2) for j in range(v)] for _ in range(n)])
+    specs = {
+        "tau_mean": Hyperparameter(70.0), "tau_std": Hyperparameter(5.0),
+        "tau": IndividualLatentVariable(Normal("tau_mean", "tau_std")),
+        "t": DataVariable(), "y": DataVariable(),
+        "followup": LinkedVariable(_followup), "nll_attach_ind": LinkedVariable(_nll_attach_ind),
+        "n_informative_ind": LinkedVariable(_n_informative_ind), "n_informative": LinkedVariable(_n_informative),
+    }
+    state = State(VariablesDAG.from_dict(NamedVariables(specs)), auto_fork_type=getattr(StateForkType, plan["fork"]))
+    with state.auto_fork(None):
+        state["t"] = t
+        state["y"] = (t - 70.5).clamp(min=0.0)
+        state["tau"] = torch.tensor([[round(68.0 + st.uniform(0, 6), 2)] for _ in range(n)])
+    sampler = sampler_factory("Gibbs", IndividualLatentVariable, name="tau", shape=(1,), n_patients=n, scale=plan["scale"])
+    torch.manual_seed(plan["gseed"])
+    names = sorted(state.dag.variables)
+    pattern = []
+    for si in range(plan["steps"]):
+        if plan["read_between"]:
+            state["n_informative_ind"]      # (row-wise reads are cached before the proposal, as a monitor would do)
+        sampler.sample(state, temperature_inv=1.0)
+        acc = sampler.acceptation_history[-1].bool()
+        pattern.append("".join("a" if a else "r" for a in acc.tolist()))
+        if 0 < int(acc.sum()) < n:
+            C["probe.partial_reject_mixed"] += 1
+            C["probe.custom_graph_partial_rejection"] += 1
+        indep = {nm: state[nm] for nm in ("t", "y", "tau")}
+        ev = RefEval(state.dag.variables, indep)
+        for nm in names:
+            if nm in indep:
+                continue
+            try:
+                exp = ev.value(nm)
+            except Exception:
+                continue
+            cell = state._values.get(nm)
+            if cell is not None and not same(cell, exp):
+                violation(out, "cache_after_step", "derived_value_differs_from_scratch:ind:custom_graph", f"step{si}: cached {nm}: {describe_diff(cell, exp)}; decisions {pattern[-1]}")
+                break
+            got = state[nm]
+            if not same(got, exp):
+                violation(out, "read_after_step", "derived_value_differs_from_scratch:ind:custom_graph", f"step{si}: read {nm}: {describe_diff(got, exp)}; decisions {pattern[-1]}")
+                break
+        log.add("custom", si, pattern[-1], tdigest(state["tau"]))
+        if out["violations"]:
+            break
+    out["keys"].add("run:" + hashlib.sha1(repr(("custom", plan["n"], plan["visits"], plan["fork"], tuple(pattern))).encode()).hexdigest()[:16])
+    out["nontrivial"] = any("r" in p_ for p_ in pattern)
+    out["sample"] = {"type": "custom_graph", "n": n, "visits": v, "fork": plan["fork"], "decisions": pattern[:8]}
+
+
 def run_plan(plan: dict) -> dict:
     out = new_outcome(plan)
     log = EventLog()
     torch.set_num_threads(1)
+    if plan.get("type") == "custom_graph":
+        try:
+            with warnings.catch_warnings():
+                warnings.simplefilter("ignore")
+                run_custom_graph(plan, out, log)
+        except Exception as e:
+            out["discarded"] = f"custom_graph:{type(e).__name__}:{str(e)[:80]}"
+        out["digest"] = log.digest()
+        return out
     try:
         world = stepsim.StepWorld(plan["world"], log, out["counters"])
     except Exception as e:
@@ -240,6 +338,14 @@ def _classify_cell(got, exp, rec, nm, world):
 
 
 def shrink(plan: dict):
+    if plan.get("type") == "custom_graph":
+        for key, vals in (("steps", [1, 2, 3, plan["steps"] // 2]), ("n", [3]), ("visits", [2]), ("read_between", [False])):
+            for v_ in vals:
+                if v_ != plan[key] and (not isinstance(v_, int) or isinstance(v_, bool) or 1 <= v_ < plan[key]):
+                    p = dict(plan)
+                    p[key] = v_
+                    yield p
+        return
     steps = plan["steps"]
     for cand in ddmin_list(steps):
         if cand:
